@@ -267,3 +267,71 @@ def rule_no_ignored_argument(ctx, rule, prefixes, label, minimum=400):
     rep.add(rule, '%s / every argument passed is read by the function that receives it' % label, None, not bad,
             '%d bound arguments at library call sites: each parameter that receives one is read outside log lines' %
             checked if not bad else '%d parameters receive a value that is ignored' % len(bad))
+
+
+# ------------------------------------------------------------------------------------------------ coroutines run
+# method names that objects from outside the library (generators, stream writers, queues, events, tasks, websockets)
+# also have: a call on a receiver of unknown class is not taken for the library's method of that name
+_FOREIGN_NAMES = {'close', 'aclose', 'cancel', 'send', 'get', 'put', 'wait', 'connect', 'write', 'read', 'drain',
+                  'join', 'start', 'stop', 'run', 'set', 'clear', 'pop', 'append', 'extend', 'remove', 'add',
+                  'update', 'receive', 'accept', 'throw', 'result', 'exception', 'done', 'subscribe', 'dispose'}
+
+
+def rule_coroutines_run(ctx, rule, prefixes, label, minimum=60):
+    """A call of one of the library's coroutine functions only creates the coroutine; the body runs when somebody awaits
+    it.  Reported: such a call used as a statement (the coroutine is dropped), and `return <call>` inside another
+    coroutine function (the caller's `await` then yields the inner coroutine object, un-run, instead of its result).
+    Accepted: awaited; handed to create_task / ensure_future / gather / wait / wait_for / run_until_complete / shield;
+    returned from a plain function (the caller awaits it); bound to a name or passed on as an argument (not followed).
+    Callees are resolved as in the binding rule; a method called on a receiver of unknown class counts only when every
+    library definition of that name is a coroutine function."""
+    rep = ctx.report
+    repo = ctx.repo
+    fam = _method_families(repo, prefixes)
+    n_calls = 0
+    bad = []
+    for fn in repo.all_functions():
+        if not any(fn.qualname.startswith(p) for p in prefixes):
+            continue
+        parents = {}
+        for a in ast.walk(fn.node):
+            for b in ast.iter_child_nodes(a):
+                parents[b] = a
+        for n in walk_local(fn.node):
+            if not isinstance(n, ast.Call):
+                continue
+            g, _ = _callee(repo, fn, n)
+            defs = None
+            if g is not None:
+                defs = [g]
+                if g.cls is not None and g.node.name in fam:
+                    # overrides may differ: count only when all of them are coroutine functions
+                    defs = [d for d in fam[g.node.name] if d.cls is not None and (
+                        d.cls.is_subclass_of(g.cls) or g.cls.is_subclass_of(d.cls))] or [g]
+            elif isinstance(n.func, ast.Attribute) and n.func.attr in fam and n.func.attr not in _FOREIGN_NAMES:
+                defs = fam[n.func.attr]
+            if not defs:
+                continue
+            if not all(d.is_async and not d.has_yield() for d in defs):
+                continue
+            n_calls += 1
+            par = parents.get(n)
+            if isinstance(par, ast.Expr):
+                bad.append((fn, n, defs[0], 'is called as a statement: the coroutine is created and dropped, its body '
+                                            'never runs'))
+            elif isinstance(par, ast.Return) and fn.is_async and not fn.has_yield():
+                bad.append((fn, n, defs[0], 'is returned un-awaited from a coroutine function: the caller\'s await '
+                                            'yields a coroutine object, the body never runs'))
+    if n_calls < minimum:
+        raise AnalysisError('%s: only %d calls of library coroutine functions found in %s' % (rule, n_calls, label))
+    seen = set()
+    for fn, call, g, why in bad:
+        key = (fn.qualname, g.node.name)
+        if key in seen:
+            continue
+        seen.add(key)
+        rep.bad(rule, '%s / coroutine of %s' % (fn.short, g.node.name), (fn.file, call.lineno),
+                '%s(...) %s' % (ast.unparse(call.func), why))
+    rep.add(rule, '%s / every coroutine the library creates is run' % label, None, not bad,
+            '%d calls of library coroutine functions: none is dropped as a statement or returned un-awaited from a '
+            'coroutine' % n_calls if not bad else '%d coroutines are created and never run' % len(bad))
